@@ -44,17 +44,20 @@ Proof. exact edits_frame. Qed.
 Print Assumptions C01_edits_frame.
 
 (* when no block accepts an added import: the output is the prologue (maximal leading run of
-   comment / blank / string-literal statements), the new block, one blank line, and the rest of the
-   input framed as before *)
-Theorem C01_insert_frame : forall (P iset : Type) (empty_set : iset) (R : iset -> str) (fso : bool)
+   comment / blank statements and at most one string-literal statement - the docstring), a line
+   terminator if - and only possibly if - the prologue is not empty and does not end with a newline
+   (the file ends in the middle of its last prologue line), the new block, one blank line, and the
+   rest of the input framed as before *)
+Theorem C01_insert_frame : forall (P iset : Type) (empty_set : iset) (R : iset -> str)
     (bs bs' : list (@block P iset)),
   Forall (untouched P iset) bs ->
-  insert_new_import_block empty_set fso bs = Some bs' ->
-  exists pro rest o',
+  insert_new_import_block empty_set bs = Some bs' ->
+  exists pro term rest o',
     input_text P iset bs = (pro ++ rest)%list /\
-    pretty R bs' = (pro ++ R empty_set ++ [c_nl] ++ o')%list /\
+    pretty R bs' = (pro ++ term ++ R empty_set ++ [c_nl] ++ o')%list /\
     (exists brest, frame P iset brest rest o') /\
-    is_prologue_text P iset fso bs pro.
+    is_prologue_text P iset bs pro /\
+    (term = [] \/ (term = [c_nl] /\ needs_terminator pro = true)).
 Proof. exact insert_frame. Qed.
 Print Assumptions C01_insert_frame.
 
@@ -85,7 +88,20 @@ Proof. vm_compute. reflexivity. Qed.
 Example C01_nonvacuous_insert :
   match statements [mkNode (mkPos 1 1) 1 (@KStrExpr unit); mkNode (mkPos 3 1) 3 KOther]
                    (of_str (dec "'''d'''$a;# c$a;y = 2$a;"%string) (mkPos 1 1)) with
-  | Some ps => option_map (pretty ex_R) (insert_new_import_block 0%N false (preprocess (fun _ : list unit => 0%N) ps))
+  | Some ps => option_map (pretty ex_R) (insert_new_import_block 0%N (preprocess (fun _ : list unit => 0%N) ps))
   | None => None
   end = Some (dec "'''d'''$a;# c$a;IMPORTS$a;$a;y = 2$a;"%string).
+Proof. vm_compute. reflexivity. Qed.
+Example C01_nonvacuous_insert_docstring_only :
+  match statements [mkNode (mkPos 1 1) 1 (@KStrExpr unit)] (of_str (dec "'d'"%string) (mkPos 1 1)) with
+  | Some ps => option_map (pretty ex_R) (insert_new_import_block 0%N (preprocess (fun _ : list unit => 0%N) ps))
+  | None => None
+  end = Some (dec "'d'$a;IMPORTS$a;$a;"%string).
+Proof. vm_compute. reflexivity. Qed.
+Example C01_nonvacuous_insert_second_string :
+  match statements [mkNode (mkPos 1 1) 1 (@KStrExpr unit); mkNode (mkPos 2 1) 2 KStrExpr; mkNode (mkPos 3 1) 3 KOther]
+                   (of_str (dec "'d'$a;'second'$a;y = 2$a;"%string) (mkPos 1 1)) with
+  | Some ps => option_map (pretty ex_R) (insert_new_import_block 0%N (preprocess (fun _ : list unit => 0%N) ps))
+  | None => None
+  end = Some (dec "'d'$a;IMPORTS$a;$a;'second'$a;y = 2$a;"%string).
 Proof. vm_compute. reflexivity. Qed.
